@@ -28,7 +28,14 @@ def ident(f, *rest, **kw):
     return f
 
 
-REF_GLOBALS = {"g": G_VALUE, "other": other_ref, "deco": deco, "deco2": deco2, "ident": ident, "mx": mx}
+def twice(f):
+    """a decorator that changes behaviour (used on NESTED definitions, which capture must keep)"""
+    def wrapper(*a, **k):
+        return f(*a, **k) * 2
+    return wrapper
+
+
+REF_GLOBALS = {"g": G_VALUE, "other": other_ref, "deco": deco, "deco2": deco2, "ident": ident, "mx": mx, "twice": twice}
 
 # ------------------------------------------------------------------------------------ axes (first value = neutral)
 PARAMS = {
@@ -67,6 +74,9 @@ BODIES = {
     "multi": ["y = x * 2", "z = y + g", "return z"],
     "nested-def": ["def inner(a):", "    return a + g", "return inner(x)"],
     "nested-lambda": ["h = lambda a: a + g", "return h(x)"],
+    # decorators of NESTED definitions belong to the body: only the decorators of the captured function itself are dropped
+    "nested-def-decorated": ["@twice", "def inner(a):", "    return a + g", "return inner(x)"],
+    "nested-class-staticmethod": ["class K:", "    @staticmethod", "    def m(a):", "        return a * 2", "", "    @classmethod", "    def n(cls, a):", "        return a + 1", "return K.m(x) + K.n(x) + g"],
     "nested-class": ["class K:", "    v = 2", "", "    def m(self, a):", "        return a * self.v", "return K().m(x) + g"],
     "comprehension": ["return sum(i for i in range(x)) + len([j for j in (1, 2) if j > x]) + len({k: k for k in 'ab'}) + g"],
     "multiline-expr": ["return (x +", "        g +", "        1)"],
@@ -354,7 +364,7 @@ class FuncFactory:
         self.n += 1
         name = "c20mod_%d_%d" % (os.getpid(), self.n)
         path = os.path.join(self.dir, name + ".py")
-        pre = "from c20_lib import deco, deco2, ident, G_VALUE as g, other_ref as other\nimport modelx as mx\n"
+        pre = "from c20_lib import deco, deco2, ident, twice, G_VALUE as g, other_ref as other\nimport modelx as mx\n"
         # an indented text is put inside one `if True:` block (any consistent indentation is a valid block)
         src = pre + ("if True:\n" if wrap_indent else "") + text + "\n"
         self.last_source = src
